@@ -1,4 +1,5 @@
 import Proofs.SrcLines
+import Proofs.SrcItems
 /-!
 # From the token list to the tree, for the nodes that can fail
 
@@ -373,3 +374,32 @@ theorem Derives.noInc {g : Grammar} {chk : Bytes → Option Cause} {toks : List 
       ihr (fun t' ht' => hni t' (List.mem_cons_of_mem _ (List.mem_append_right _ (List.mem_append_right _ (List.mem_cons_of_mem _ ht')))))⟩
     exact noInc_segs segs (fun sg hs => ihs sg hs (fun t' ht' =>
       hni t' (List.mem_cons_of_mem _ (List.mem_append_right _ (List.mem_append_left _ (mem_segToks_of_mem hs t' ht'))))))
+
+/-! ## Templates without `include` -/
+
+/-- no tag token of the list is named `include` (decidable) -/
+def NoIncludeTag (toks : List Token) : Prop := ∀ t ∈ toks, ¬ (t.ty = .tag ∧ t.name = nmInclude)
+
+instance (toks : List Token) : Decidable (NoIncludeTag toks) := by unfold NoIncludeTag; infer_instance
+
+/-- no tag of the template is named `include` -/
+def NoIncludeItem (items : List Item) : Prop := ∀ it ∈ items, it.tagName ≠ some nmInclude
+
+instance (items : List Item) : Decidable (NoIncludeItem items) := by unfold NoIncludeItem; infer_instance
+
+theorem noIncludeTag_tokensOf (d : Delims) (items : List Item) (line : Nat) (hni : NoIncludeItem items) :
+    NoIncludeTag (tokensOf d items line) := by
+  refine tokensOf_forall _ (fun t => ¬ (t.ty = .tag ∧ t.name = nmInclude)) (by intro h; cases h.1) (by intro h; cases h.1) items line ?_
+  intro it hit l hh
+  cases it with
+  | text s => cases hh.1
+  | obj args hl hr wl wr => cases hh.1
+  | tag name args hl hr wl wm wr => exact hni _ hit (by simp only [Item.mainTok] at hh; simp [Item.tagName, hh.2])
+
+/-- a piece without an `include` tag compiles to an include-free tree -/
+theorem compiles_noIncl (d : Delims) (items : List Item) (line : Nat) (ns : List Node)
+    (h : compileTokens (tokensOf d items line) = .ok ns) (hni : NoIncludeItem items) : noInclList ns = true := by
+  obtain ⟨_, ast, hd, hc⟩ := compileTokens_ok h
+  have := epost_compileList (etokLinesList ast) ast (fun _ hx => hx) (hd.noInc (noIncludeTag_tokensOf d items line hni))
+  rw [hc] at this
+  exact this.2
